@@ -24,12 +24,20 @@ type Case struct {
 	Line string // request line sent to the model (without the trailing newline)
 	Impl string // implementation's canonical answer
 	Key  string // class key for counting distinct non-trivial cases ("" = trivial)
+	// Class names the enumerated input family of the case ("" for random inputs); a mismatch of a
+	// reference-semantics stream is identified by it, so that a known finding can be told from a new one
+	Class string
+	// Prop is the property whose generator family produced the case ("" = the stream's own)
+	Prop string
 }
 
 type Mismatch struct {
 	Line  string `json:"line"`
 	Impl  string `json:"impl"`
 	Model string `json:"model"`
+	// Class is the stable name of the enumerated input family the case belongs to ("" for random inputs)
+	Class string `json:"class,omitempty"`
+	Prop  string `json:"property,omitempty"`
 }
 
 type PropViolation struct {
@@ -199,9 +207,16 @@ func main() {
 		rep.Error = err.Error()
 	} else {
 		keys := map[string]bool{}
+		classSeen := map[string]bool{}
 		for i, c := range ctx.cases {
 			if st.Skip != nil && !*nomodel && st.Skip(model[i]) {
 				rep.Skipped++
+				// why the model declined (first 60 bytes of its answer): part of the input distribution
+				why := model[i]
+				if len(why) > 60 {
+					why = why[:60]
+				}
+				ctx.dist["model-skipped:"+why]++
 				continue
 			}
 			same := model[i] == c.Impl
@@ -213,8 +228,12 @@ func main() {
 			}
 			if !same {
 				rep.NMismatch++
-				if len(rep.Mismatches) < 50 {
-					rep.Mismatches = append(rep.Mismatches, Mismatch{Line: c.Line, Impl: c.Impl, Model: model[i]})
+				// keep the first 50, and beyond that the first of every named family
+				if len(rep.Mismatches) < 50 || (c.Class != "" && !classSeen[c.Class]) {
+					rep.Mismatches = append(rep.Mismatches, Mismatch{Line: c.Line, Impl: c.Impl, Model: model[i], Class: c.Class, Prop: c.Prop})
+				}
+				if c.Class != "" {
+					classSeen[c.Class] = true
 				}
 			}
 		}
